@@ -135,7 +135,7 @@ fn plans(prop: &str, tier: &str) -> Vec<Plan> {
         }
     } else {
         for p in 0..=5u8 {
-            for (ext, buf) in [(false, false), (true, false), (false, true), (true, true)] {
+            for (ext, buf) in [(true, true), (false, false), (true, false), (false, true)] {
                 for (ml, muts, uns) in [("none", vec![], false), ("full-unsafe@0.5", FULL.to_vec(), true), ("rev-unsafe@0.5", rev_full(), true)] {
                     let cfg = Cfg::new(p).flags(ext, buf).muts(&muts, 0.5, uns);
                     // without mutators the flags only gate can_emit: default answers suffice; with the unsafe lists every
@@ -314,6 +314,56 @@ pub fn check(prop: &str, tier: &str) -> i32 {
         }
     }
     rep.set("seed_sweep", json!({"seeds_per_protocol_and_config": sweep_n, "first_seed": crate::report::sweep_base(sweep_n), "generations": sweep_runs, "label": "sweep of a finite seed range in PRNG mode, default 60-300 opcodes; not exhaustive over 2^64 seeds"}));
+    // reuse: the second and third pickle of ONE generator (no reset in between) go through the same oracle
+    {
+        use rayon::prelude::*;
+        let inputs: Vec<Vec<u8>> = vec![vec![], vec![1, 0x21, 0x07, 0x33, 0x02, 0x11], vec![0xff; 24], (1..=40u8).collect()];
+        let jobs: Vec<(Cfg, usize, usize)> = (0..=5u8)
+            .rev()
+            .flat_map(|p| {
+                let mut cs = vec![Cfg::new(p).flags(true, true).range(3, 9), Cfg::new(p).flags(true, true).range(3, 9).muts(&FULL, 0.5, false)];
+                if !matches!(prop, "C01" | "C02" | "C03" | "C05" | "C17") {
+                    cs.push(Cfg::new(p).flags(true, true).range(3, 9).muts(&FULL, 0.5, true));
+                }
+                cs.into_iter().flat_map(|c| (0..4usize).flat_map(move |a| (0..4usize).map({
+                    let c = c.clone();
+                    move |b| (c.clone(), a, b)
+                })))
+            })
+            .collect();
+        let res: Vec<(Cfg, usize, usize, Vec<Finding>)> = jobs
+            .par_iter()
+            .map(|(cfg, a, b)| {
+                let mut g = cfg.build().with_seed(9);
+                let _ = crate::run::run_on(&mut g, crate::run::Entropy::Bytes(&inputs[*a]), false, false);
+                let _ = crate::run::run_on(&mut g, crate::run::Entropy::Seeded, false, false);
+                let r = crate::run::run_on(&mut g, crate::run::Entropy::Bytes(&inputs[*b]), true, false);
+                let tr = trace::parse(&r.events, inputs[*b].len(), !cfg.mutators.is_empty());
+                let fs = match r.bytes() {
+                    Some(bts) => {
+                        let (ops, m) = analyse(bts);
+                        let ctx = RunCtx { cfg, script: &[], res: &r, tr: &tr, ops: &ops, m: m.as_ref() };
+                        mon(&ctx)
+                    }
+                    None => vec![],
+                };
+                (cfg.clone(), *a, *b, fs)
+            })
+            .collect();
+        let mut n = 0u64;
+        for (cfg, a, b, fs) in res {
+            n += 1;
+            for fd in fs {
+                rep.finding_raw(
+                    &format!("{}:on-reused-generator", fd.class),
+                    &format!("third generation on one generator ({}): {}", cfg.describe(), fd.msg),
+                    json!({"kind":"history","config":cfg.to_json(),"seed":9,"calls":[{"call":"generate_from_arbitrary","bytes_hex":lexer::hex(&inputs[a])},{"call":"generate"},{"call":"generate_from_arbitrary","bytes_hex":lexer::hex(&inputs[b])}],"failing_call":2}),
+                );
+            }
+        }
+        rep.transitions += n;
+        rep.set("reused_generator_runs", json!(n));
+    }
     // bind L and M to CPython on the collected outputs
     all_outputs.sort();
     all_outputs.dedup();
